@@ -285,6 +285,19 @@ pub fn run(args: &Args) -> ! {
                         searchers.push((cfg, st, s));
                     }
                 }
+                // passthru: every line is delivered, the lines of the matches
+                // as matches and the others as context, numbered as in the input
+                if !family4 && mode.wrap == 0 {
+                    for st in [St::Slice, St::Reader] {
+                        if st == St::Reader && tier == Tier::Quick && pi % 2 != 0 {
+                            continue;
+                        }
+                        let cfg = Cfg { term, invert, after: 0, before: 0, passthru: true, line_number: true, stop_on_nonmatch: false, multi_line: true };
+                        let mut sb = cfg.builder();
+                        sb.memory_map(MmapChoice::never());
+                        searchers.push((cfg, st, sb.build()));
+                    }
+                }
             }
             let is_multi = searchers[0].2.multi_line_with_matcher(&m);
             for (ii, input) in input_sets[&mode.crlf].iter().enumerate() {
@@ -376,7 +389,7 @@ pub fn run(args: &Args) -> ! {
     ev.set(
         "rule",
         format!(
-            "patterns: every token string of length 1..3 over {:?}, plus every length-4 token string containing an alternation and a token that can cross a line boundary (on the quick tier: inputs up to length 4, no context, slice strategy) (built with multi_line, as rg -U does; modes LF, LF+dotall, CRLF, and CRLF -x, CRLF -w, LF -x); inputs: every byte string over {{a,b,-,\\n}} (+\\r under CRLF) up to the length bound; x invert x (A,B) in {:?} x strategy (slice, fragmented reader; search_path without mmap for every 4th pattern); one Searcher per configuration reused across all inputs. Reference: iterate regex::bytes::Regex::find_at over the WHOLE input (pos = end, +1 after an empty match); a line is hit iff a match overlaps it (empty match: the line containing its position, or an unterminated last line at the very end; for a pattern that cannot match \\n under CRLF — searched line by line, outside the property's quantifier — a line is hit iff the pattern matches the line without its \\r\\n); context, separators, numbering, offsets and byte count by the grep model of C03. Compared: the flattened per-line event list. distinct_nontrivial = (pattern, mode, input) triples with at least one hit line.",
+            "patterns: every token string of length 1..3 over {:?}, plus every length-4 token string containing an alternation and a token that can cross a line boundary (on the quick tier: inputs up to length 4, no context, slice strategy) (built with multi_line, as rg -U does; modes LF, LF+dotall, CRLF, and CRLF -x, CRLF -w, LF -x); inputs: every byte string over {{a,b,-,\\n}} (+\\r under CRLF) up to the length bound; x invert x ((A,B) in {:?} or passthru) x strategy (slice, fragmented reader; search_path without mmap for every 4th pattern); one Searcher per configuration reused across all inputs. Reference: iterate regex::bytes::Regex::find_at over the WHOLE input (pos = end, +1 after an empty match); a line is hit iff a match overlaps it (empty match: the line containing its position, or an unterminated last line at the very end; for a pattern that cannot match \\n under CRLF — searched line by line, outside the property's quantifier — a line is hit iff the pattern matches the line without its \\r\\n); context, separators, numbering, offsets and byte count by the grep model of C03. Compared: the flattened per-line event list. distinct_nontrivial = (pattern, mode, input) triples with at least one hit line.",
             TOKENS, ctxs
         ),
     );
